@@ -17,6 +17,7 @@ import (
 	"strconv"
 	"strings"
 	"sync"
+	"sync/atomic"
 	"time"
 
 	"verifharness/mc"
@@ -30,9 +31,14 @@ type Env struct {
 	VerifDir  string
 	Deadline  time.Time // internal deadline: stop, report exhaustive:false, exit 0
 	curFile   string
-	outFile   string // partial report path (worker processes)
-	skipUpTo  int64  // cases with Mark index <= skipUpTo are skipped after a crash restart
+	outFile   string         // partial report path (worker processes)
+	skipUpTo  int64          // cases with Mark index <= skipUpTo are skipped after a crash restart
+	killers   map[int64]bool // marked cases behind skipUpTo that killed an earlier attempt of this worker
 	markIdx   int64
+	report    *mc.Report  // worker processes: checkpointed on request
+	wantPart  atomic.Bool // raised every few seconds of real time: checkpoint at the next Mark
+	cur       *os.File    // curFile, kept open
+	curLen    int         // length of the last description written to it
 }
 
 func (e *Env) Thorough() bool { return e.Tier == "thorough" }
@@ -62,14 +68,36 @@ func (e *Env) Expired() bool { return !e.Deadline.IsZero() && time.Now().After(e
 // It returns false if the case must be skipped (it killed a previous worker).
 func (e *Env) Mark(desc func() string) bool {
 	e.markIdx++
-	if e.markIdx <= e.skipUpTo {
+	if e.markIdx <= e.skipUpTo || e.killers[e.markIdx] {
 		return false
 	}
 	if e.curFile != "" {
-		os.WriteFile(e.curFile, []byte(strconv.FormatInt(e.markIdx, 10)+"\n"+desc()), 0o644)
+		if e.wantPart.CompareAndSwap(true, false) {
+			// checkpoint: every case before this one is in the report. If the process dies the
+			// parent merges the checkpoint and restarts the worker right behind it, so that a
+			// death loses no result
+			e.report.Set(checkpointKey, e.markIdx-1)
+			if e.report.WritePartial(e.outFile+".part.tmp") == nil {
+				os.Rename(e.outFile+".part.tmp", e.outFile+".part")
+			}
+		}
+		// one pwrite per case on a file kept open (checks mark millions of cases); a shorter
+		// description is padded with spaces to cover what the previous one left behind
+		if e.cur == nil {
+			e.cur, _ = os.Create(e.curFile)
+		}
+		b := []byte(strconv.FormatInt(e.markIdx, 10) + "\n" + desc())
+		n := len(b)
+		for len(b) < e.curLen {
+			b = append(b, ' ')
+		}
+		e.cur.WriteAt(b, 0)
+		e.curLen = n
 	}
 	return true
 }
+
+const checkpointKey = "checkpoint_mark"
 
 type Prop struct {
 	ID      string
@@ -107,6 +135,7 @@ func main() {
 	worker := flag.String("worker", "", "i/n (internal)")
 	out := flag.String("out", "", "partial report path (internal)")
 	skip := flag.Int64("skip-upto", 0, "skip marked cases up to this index (internal)")
+	skipCases := flag.String("skip-cases", "", "marked cases to skip, comma-separated (internal)")
 	replay := flag.String("replay", "", "replay file")
 	list := flag.Bool("list", false, "list registered properties")
 	flag.Parse()
@@ -174,7 +203,18 @@ func main() {
 		fmt.Sscanf(*worker, "%d/%d", &env.Shard, &env.Of)
 		env.curFile = *out + ".cur"
 		env.outFile = *out
-		env.skipUpTo = *skip
+		env.skipUpTo, env.killers, env.report = *skip, map[int64]bool{}, r
+		for _, k := range strings.Split(*skipCases, ",") {
+			if i, err := strconv.ParseInt(k, 10, 64); err == nil {
+				env.killers[i] = true
+			}
+		}
+		go func() { // real time, also for checks whose cases run on a virtual clock
+			for {
+				time.Sleep(3 * time.Second)
+				env.wantPart.Store(true)
+			}
+		}()
 		p.Run(r, env)
 		if env.Expired() {
 			r.NotExhaustive("internal deadline reached")
@@ -234,12 +274,13 @@ func runWorkers(p *Prop, r *mc.Report, env *Env, n int, budget time.Duration) in
 				mu.Unlock()
 				return
 			}
-			skip := int64(0)
+			skip, killers := int64(0), []string{}
 			for attempt := 0; attempt < 200; attempt++ {
 				outp := filepath.Join(tmp, fmt.Sprintf("w%d.json", i))
 				os.Remove(outp)
 				os.Remove(outp + ".cur")
-				args := []string{"-prop", p.ID, "-tier", env.Tier, "-worker", fmt.Sprintf("%d/%d", i, n), "-out", outp, "-skip-upto", strconv.FormatInt(skip, 10)}
+				os.Remove(outp + ".part")
+				args := []string{"-prop", p.ID, "-tier", env.Tier, "-worker", fmt.Sprintf("%d/%d", i, n), "-out", outp, "-skip-upto", strconv.FormatInt(skip, 10), "-skip-cases", strings.Join(killers, ",")}
 				cmd := exec.Command(exe, args...)
 				cmd.Env = append(os.Environ(), "VERIF_DIR="+env.VerifDir, fmt.Sprintf("VERIF_BUDGET_S=%d", int(time.Until(env.Deadline).Seconds())+1))
 				if p.Procs > 0 {
@@ -290,14 +331,24 @@ func runWorkers(p *Prop, r *mc.Report, env *Env, n int, budget time.Duration) in
 				idx, _ := strconv.ParseInt(parts[0], 10, 64)
 				desc := ""
 				if len(parts) > 1 {
-					desc = parts[1]
+					desc = strings.TrimRight(parts[1], " ")
 				}
 				site, msg := panicSite(stderr.String())
 				mu.Lock()
 				r.Violation("no-panic", site, "process died while handling the case: "+msg, json.RawMessage(desc))
 				r.Count("worker_deaths", 1)
 				mu.Unlock()
-				skip = idx
+				// what the dead worker had checkpointed counts; the next attempt resumes behind the
+				// checkpoint and leaves out the cases that killed earlier attempts
+				var part mc.Report
+				if b, err := os.ReadFile(outp + ".part"); err == nil && json.Unmarshal(b, &part) == nil {
+					if cp, ok := part.Extra[checkpointKey].(float64); ok {
+						delete(part.Extra, checkpointKey)
+						r.Merge(&part)
+						skip = int64(cp)
+					}
+				}
+				killers = append(killers, strconv.FormatInt(idx, 10))
 			}
 		}(i)
 	}
@@ -306,6 +357,7 @@ func runWorkers(p *Prop, r *mc.Report, env *Env, n int, budget time.Duration) in
 		fmt.Fprintln(os.Stderr, "INFRASTRUCTURE ERROR: a worker failed; no verdict")
 		return 2
 	}
+	delete(r.Extra, checkpointKey)
 	r.Set("workers", n)
 	return r.Finish(env.VerifDir)
 }
